@@ -17,7 +17,7 @@ def sh(cmd, cwd=None, env=None, timeout=1800):
     return r.returncode, r.stdout.decode(errors='replace')
 
 
-def verify(src, prop, name):
+def verify(src, prop, name, crate='chiritori'):
     if os.path.exists(WT):
         sh(f'git -C {REPO} worktree remove --force {WT}')
     rc, out = sh(f'git -C {REPO} worktree add -q --detach {WT} HEAD')
@@ -26,19 +26,19 @@ def verify(src, prop, name):
     try:
         demo = [f for f in glob.glob(src + '/*') if f.endswith('.rs')]
         assert len(demo) == 1, demo
-        os.makedirs(WT + '/chiritori/tests', exist_ok=True)
-        shutil.copy(demo[0], WT + '/chiritori/tests/demo.rs')
-        rc0, out0 = sh('cargo test -p chiritori --offline --test demo 2>&1 | tail -15', cwd=WT)
+        os.makedirs(WT + f'/{crate}/tests', exist_ok=True)
+        shutil.copy(demo[0], WT + f'/{crate}/tests/demo.rs')
+        rc0, out0 = sh(f'cargo test -p {crate} --offline --test demo 2>&1 | tail -15', cwd=WT)
         res['demo_without_patch'] = 'pass' if 'test result: ok' in out0 else 'FAIL'
         rc, out = sh(f'git apply --3way {src}/patch.diff 2>&1 || git apply {src}/patch.diff', cwd=WT)
         res['patch_applies'] = rc == 0
         if rc != 0:
             res['apply_output'] = out[-800:]
             return res
-        rc1, out1 = sh('cargo test -p chiritori --offline --test demo 2>&1 | tail -25', cwd=WT)
+        rc1, out1 = sh(f'cargo test -p {crate} --offline --test demo 2>&1 | tail -25', cwd=WT)
         res['demo_with_patch'] = 'fail' if ('test result: FAILED' in out1 or 'panicked' in out1) and 'could not compile' not in out1 else 'PASS-OR-BROKEN'
         res['demo_with_patch_tail'] = out1[-600:]
-        os.remove(WT + '/chiritori/tests/demo.rs')
+        os.remove(WT + f'/{crate}/tests/demo.rs')
         rc2, out2 = sh('cargo test --workspace --no-fail-fast --offline 2>&1 | grep -E "^test result|error(\\[|:)|FAILED" | head', cwd=WT)
         res['suite_with_patch'] = 'pass' if 'FAILED' not in out2 and 'error' not in out2 and '71 passed' in out2 else 'FAIL: ' + out2[-300:]
         rc3, diff = sh('git diff HEAD -- chiritori/src chiritori-cli/src', cwd=WT)
@@ -58,7 +58,7 @@ def verify(src, prop, name):
         meta = dict(breaks_property=prop, name=name, base_commit=head,
                     needs=open(src + '/README.md').read()[:1500] if os.path.exists(src + '/README.md') else '',
                     confirmed=dict(demo_without_patch='pass', demo_with_patch='fail', existing_suite_with_patch='pass (71 tests)',
-                                   how='scratch worktree of /repo HEAD; demo copied to chiritori/tests/demo.rs; cargo test -p chiritori --offline --test demo; cargo test --workspace --offline'),
+                                   how=f'scratch worktree of /repo HEAD; demo copied to {crate}/tests/demo.rs; cargo test -p {crate} --offline --test demo; cargo test --workspace --offline'),
                     detected_by={})
         json.dump(meta, open(d + '/meta.json', 'w'), indent=1)
     res.pop('diff', None)
@@ -95,7 +95,7 @@ def run(name, checks):
 
 if __name__ == '__main__':
     if sys.argv[1] == 'verify':
-        r = verify(sys.argv[2], sys.argv[3], sys.argv[4])
+        r = verify(sys.argv[2], sys.argv[3], sys.argv[4], *(sys.argv[5:6]))
         print(json.dumps({k: v for k, v in r.items() if k != 'demo_with_patch_tail'}, indent=1))
         if not r.get('confirmed'):
             print(r.get('demo_with_patch_tail', ''))
